@@ -66,11 +66,100 @@ _PURE_CALLS = {'isinstance', 'issubclass', 'len', 'str', 'repr', 'type', 'hasatt
                'list', 'tuple', 'set', 'dict', 'sorted', 'id', 'any', 'all', 'min', 'max'}
 
 
+def _known_not_none(fn, load, v: str) -> bool:
+    """is the read `load` of local v only reached when `v is not None` has been established?  (an enclosing `if v is not None:` /
+    the else of `if v is None:`, an earlier `if v is None: <leave>` in an enclosing block, an earlier `v is not None and ..` operand)"""
+    parents = {}
+    for x in ast.walk(fn):
+        for c in ast.iter_child_nodes(x):
+            parents[id(c)] = x
+
+    def is_test(e, positive: bool) -> bool:
+        """e being true (positive) / false (not positive) implies v is not None"""
+        if isinstance(e, ast.Compare) and len(e.ops) == 1 and isinstance(e.left, ast.Name) and e.left.id == v \
+                and isinstance(e.comparators[0], ast.Constant) and e.comparators[0].value is None:
+            return isinstance(e.ops[0], ast.IsNot) if positive else isinstance(e.ops[0], ast.Is)
+        if isinstance(e, ast.UnaryOp) and isinstance(e.op, ast.Not):
+            return is_test(e.operand, not positive)
+        if isinstance(e, ast.BoolOp):
+            if isinstance(e.op, ast.And) and positive:
+                return any(is_test(x, True) for x in e.values)
+            if isinstance(e.op, ast.Or) and not positive:
+                return any(is_test(x, False) for x in e.values)
+        return False
+
+    def leaves(stmts) -> bool:
+        return bool(stmts) and (isinstance(stmts[-1], (ast.Return, ast.Raise, ast.Continue, ast.Break)) or (
+            isinstance(stmts[-1], ast.If) and leaves(stmts[-1].body) and leaves(stmts[-1].orelse)))
+    cur = load
+    while id(cur) in parents:
+        p = parents[id(cur)]
+        if isinstance(p, ast.If):
+            if any(cur is x for x in p.body) and is_test(p.test, True):
+                return True
+            if any(cur is x for x in p.orelse) and is_test(p.test, False):
+                return True
+        if isinstance(p, ast.IfExp):
+            if cur is p.body and is_test(p.test, True):
+                return True
+            if cur is p.orelse and is_test(p.test, False):
+                return True
+        if isinstance(p, ast.BoolOp):
+            k = [i for i, x in enumerate(p.values) if x is cur]
+            if k:
+                earlier = p.values[:k[0]]
+                if isinstance(p.op, ast.And) and any(is_test(x, True) for x in earlier):
+                    return True
+                if isinstance(p.op, ast.Or) and any(is_test(x, False) for x in earlier):
+                    return True
+        for fld in ('body', 'orelse', 'finalbody'):
+            blk = getattr(p, fld, None)
+            if isinstance(blk, list) and any(cur is x for x in blk):
+                k = [i for i, x in enumerate(blk) if x is cur][0]
+                for e in blk[:k]:
+                    if isinstance(e, ast.If):
+                        if is_test(e.test, False) and leaves(e.body):
+                            return True         # `if v is None: return`
+                        if is_test(e.test, True) and e.orelse and leaves(e.orelse):
+                            return True
+        if isinstance(p, (ast.FunctionDef, ast.AsyncFunctionDef, ast.Lambda)) and p is not fn:
+            return False
+        cur = p
+    return False
+
+
 def _dfs(n):
     """nodes in program (depth-first, source) order"""
     yield n
     for c in ast.iter_child_nodes(n):
         yield from _dfs(c)
+
+
+_MUTABLE_ATTRS = [set(), False]       # (attributes written outside __init__ or mutated in place, computed?) for the module at hand
+
+
+def _compute_mutable_attrs(tree: ast.Module):
+    out = set()
+    for fn in [n for n in ast.walk(tree) if isinstance(n, (ast.FunctionDef, ast.AsyncFunctionDef))]:
+        for n in ast.walk(fn):
+            if isinstance(n, ast.Attribute) and isinstance(n.ctx, (ast.Store, ast.Del)) and fn.name != '__init__':
+                out.add(n.attr)
+            if isinstance(n, ast.Subscript) and isinstance(n.ctx, (ast.Store, ast.Del)) and isinstance(n.value, ast.Attribute):
+                out.add(n.value.attr)
+            if isinstance(n, ast.Call) and isinstance(n.func, ast.Attribute) and isinstance(n.func.value, ast.Attribute) \
+                    and n.func.attr in ('append', 'extend', 'insert', 'pop', 'remove', 'clear', 'update', 'setdefault', 'popitem', 'add',
+                                        'discard', 'sort', 'reverse'):
+                out.add(n.func.value.attr)
+            if isinstance(n, ast.AugAssign) and isinstance(n.target, ast.Attribute):
+                out.add(n.target.attr)
+    for n in ast.walk(tree):
+        if isinstance(n, ast.Call) and isinstance(n.func, ast.Name) and n.func.id in ('setattr', 'delattr') and len(n.args) >= 2:
+            if isinstance(n.args[1], ast.Constant):
+                out.add(n.args[1].value)
+            else:
+                _MUTABLE_ATTRS[0], _MUTABLE_ATTRS[1] = set(), False
+                return
+    _MUTABLE_ATTRS[0], _MUTABLE_ATTRS[1] = out, True
 
 
 def _filter_independent(comp, body) -> bool:
@@ -81,7 +170,20 @@ def _filter_independent(comp, body) -> bool:
         return True
     g0 = comp.generators[0]
     elem = {x.id for x in ast.walk(g0.target) if isinstance(x, ast.Name)}
-    reads = {x.id for e in [g0.iter] + list(g0.ifs) for x in ast.walk(e) if isinstance(x, ast.Name)} - elem
+    # an object that is only read through attributes which the module sets in __init__ and nowhere else (and never mutates in
+    # place) - `self.__registered_classes.values()` - does not make the filter depend on what the body does with the object
+    stable_roots = set()
+    for e in [g0.iter] + list(g0.ifs):
+        parents_ = {}
+        for x in ast.walk(e):
+            for c in ast.iter_child_nodes(x):
+                parents_[id(c)] = x
+        for x in ast.walk(e):
+            if isinstance(x, ast.Name) and x.id not in elem:
+                p_ = parents_.get(id(x))
+                if isinstance(p_, ast.Attribute) and p_.value is x and p_.attr not in _MUTABLE_ATTRS[0] and _MUTABLE_ATTRS[1]:
+                    stable_roots.add(id(x))
+    reads = {x.id for e in [g0.iter] + list(g0.ifs) for x in ast.walk(e) if isinstance(x, ast.Name) and id(x) not in stable_roots} - elem
     if not g0.ifs:
         # nothing is filtered: only the iterable itself matters, and a list copy of it is what a loop over it would see unless
         # BODY changes the collection
@@ -317,6 +419,18 @@ class _Norm(ast.NodeTransformer):
                 return ast.copy_location(ast.For(g1.target, g1.iter, [inner] if isinstance(inner, ast.stmt) else inner, [], lineno=n.lineno), n)
         # N34 (direct form): `for y in (x for x in XS if C): BODY` -> `for x in XS: if C: BODY[y:=x]`
         it = n.iter
+        # ... with a tuple target repeated as the element: `for i, x in [(i, x) for i, x in XS if C]` -> `for i, x in XS: if C:`
+        if (isinstance(it, (ast.GeneratorExp, ast.ListComp)) and len(it.generators) == 1 and not it.generators[0].is_async
+                and isinstance(it.elt, ast.Tuple) and isinstance(it.generators[0].target, ast.Tuple) and isinstance(n.target, ast.Tuple)
+                and all(isinstance(x, ast.Name) for x in it.elt.elts + it.generators[0].target.elts + n.target.elts)
+                and [x.id for x in it.elt.elts] == [x.id for x in it.generators[0].target.elts] == [x.id for x in n.target.elts]
+                and _filter_independent(it, n.body)):
+            g0 = it.generators[0]
+            body = n.body
+            if g0.ifs:
+                cond = g0.ifs[0] if len(g0.ifs) == 1 else ast.BoolOp(ast.And(), list(g0.ifs))
+                body = [ast.copy_location(ast.If(cond, body, []), n)]
+            return ast.copy_location(ast.For(n.target, g0.iter, body, n.orelse, lineno=n.lineno), n)
         if (isinstance(it, (ast.GeneratorExp, ast.ListComp)) and len(it.generators) == 1 and not it.generators[0].is_async
                 and isinstance(it.elt, ast.Name) and isinstance(it.generators[0].target, ast.Name)
                 and it.elt.id == it.generators[0].target.id and isinstance(n.target, ast.Name) and self.fn_stack):
@@ -441,14 +555,22 @@ class _Norm(ast.NodeTransformer):
                          and isinstance(c.left, ast.Name) and c.left.id == v and isinstance(c.comparators[0], ast.Constant)
                          and c.comparators[0].value is None]
                 loads = [n for n in ast.walk(fn) if isinstance(n, ast.Name) and n.id == v and isinstance(n.ctx, ast.Load)]
-                if not tests or any((getattr(n, 'lineno', 0), getattr(n, 'col_offset', 0)) <= (st.lineno, st.col_offset) for n in loads):
+                order = {id(x): k for k, x in enumerate(_dfs(fn))}
+                if not tests or any(order.get(id(n), 0) <= order.get(id(st), 0) for n in loads):
                     continue
+                # which reads know that the key was there?  Those under a `v is not None` guard: only they may become D[K];
+                # the others read D.get(K) (None when the key is absent), exactly as before
+                test_ids = {id(c.left) for c in tests}
+                guarded = {id(n) for n in loads if id(n) not in test_ids and _known_not_none(fn, n, v)}
                 for c in tests:
                     op = ast.In() if isinstance(c.ops[0], ast.IsNot) else ast.NotIn()
                     new = ast.copy_location(ast.Compare(copy.deepcopy(K), [op], [copy.deepcopy(D)]), c)
                     _replace(fn, c, new)
                 for n in [n for n in ast.walk(fn) if isinstance(n, ast.Name) and n.id == v and isinstance(n.ctx, ast.Load)]:
-                    _replace(fn, n, ast.copy_location(ast.Subscript(copy.deepcopy(D), copy.deepcopy(K), ast.Load()), n))
+                    if id(n) in guarded:
+                        _replace(fn, n, ast.copy_location(ast.Subscript(copy.deepcopy(D), copy.deepcopy(K), ast.Load()), n))
+                    else:
+                        _replace(fn, n, ast.copy_location(copy.deepcopy(st.value), n))
                 blk.remove(st)
                 if not blk:
                     blk.append(ast.copy_location(ast.Pass(), st))
@@ -1463,6 +1585,19 @@ def module_exports(tree: ast.Module, ext=None):
     return out
 
 
+def strip_casts(tree: ast.Module) -> ast.Module:
+    """N21, applied before anything else looks at the tree: `cast(T, e)` / `typing.cast(T, e)` is `e`"""
+    class T(ast.NodeTransformer):
+        def visit_Call(self, n):
+            self.generic_visit(n)
+            if len(n.args) == 2 and not n.keywords and ((isinstance(n.func, ast.Name) and n.func.id == 'cast') or (
+                    isinstance(n.func, ast.Attribute) and n.func.attr == 'cast' and isinstance(n.func.value, ast.Name)
+                    and n.func.value.id in ('typing', 'typing_extensions'))):
+                return n.args[1]
+            return n
+    return T().visit(tree)
+
+
 def propagate_module_constants(tree: ast.Module, ext=None) -> ast.Module:
     """N8: a module-level name that is bound exactly once, to a literal (string, number, tuple/set of literals), and whose spelling
     marks it as a constant (_private or ALL_CAPS) is replaced by the literal wherever it is read and not shadowed; a lookup
@@ -1562,6 +1697,7 @@ def unroll_display_loops(tree: ast.Module) -> ast.Module:
 
 
 def normalize(tree: ast.Module, ext=None) -> ast.Module:
+    _compute_mutable_attrs(tree)
     tree = propagate_module_constants(tree, ext)
     from .normalize2 import pre_normalize
     tree = pre_normalize(tree)
